@@ -2,6 +2,21 @@ use std::io::Read;
 
 use crate::error::{ErrorKind, RusticError, RusticResult};
 
+/// Checks the parameter of the fixed size chunker.
+///
+/// # Errors
+///
+/// * If the chunk size is zero (the chunker would silently produce no chunks at all).
+pub(crate) fn check_fixed_size_params(chunk_size: usize) -> RusticResult<()> {
+    if chunk_size == 0 {
+        return Err(RusticError::new(
+            ErrorKind::Unsupported,
+            "Chunk size must not be zero for the fixed size chunker.",
+        ));
+    }
+    Ok(())
+}
+
 /// `ChunkIter` is an iterator that chunks data.
 pub(crate) struct ChunkIter<R: Read + Send> {
     /// The reader.
